@@ -151,6 +151,16 @@ def check(run):
         decls, parsers = g.forced_program(i) if i % 3 == 0 else g.program()
         d2, p2 = decls, parsers
         descs, moves = [], False
+        if i % 12 == 0:
+            # the forced family "intersection of two named objects as a union member": exchange the two names (the order of the
+            # members of an intersection follows the names), in addition to the random rewrites
+            names = [d[1] for d in decls if d[0] == "alias" and d[1] != "U"]
+            if len(names) == 2:
+                sw = {names[0]: names[1], names[1]: names[0]}
+                fsw = lambda t: ("ref", sw.get(t[1], t[1]), t[2]) if t[0] == "ref" else t
+                d2 = [tsgen.remap_decl((d[0], sw.get(d[1], d[1])) + tuple(d[2:]), fsw) for d in decls]
+                p2 = [(nm, tsgen.map_ty(fsw, t)) for nm, t in parsers]
+                descs.append("the names of two declared types exchanged"); moves = True
         for _ in range(r.randrange(1, 4)):
             d2, p2, desc, mv = tsgen.rewrite_program(d2, p2, r)
             descs.append(desc)
